@@ -3,6 +3,7 @@ package props
 import (
 	"context"
 	"fmt"
+	"math"
 	"os"
 	"runtime"
 	"sort"
@@ -106,7 +107,15 @@ func c19queued(c *core.Ctx) {
 	full := (c.Index/12)%2 == 1 // RecvQueuedFull instead of RecvQueued
 	recvOnly := (c.Index/24)%2 == 1
 	for fill := 0; fill <= capa; fill++ {
+		limits := make([]int, 0, capa+6)
 		for limit := 0; limit <= capa+2; limit++ {
+			limits = append(limits, limit)
+		}
+		if !full {
+			// "no limit" idioms: the limit is an upper bound, not an allocation size
+			limits = append(limits, math.MaxInt, math.MaxInt-1, math.MaxInt/2)
+		}
+		for _, limit := range limits {
 			ch := make(chan int, capa)
 			for i := 0; i < fill; i++ {
 				ch <- 100 + i
